@@ -103,13 +103,23 @@ func runC09Mesh(c *hlib.Ctx) {
 			trisTok[i] = fmt.Sprintf("%d,%d,%d", t[0], t[1], t[2])
 		}
 		m := model3d.NewMesh()
+		other := model3d.NewMesh()
 		var ops, outs []string
 		nops := 2 + c.Rng.Intn(40)
 		builtAt := -1
 		res := hlib.Guard(func() string {
 			for i := 0; i < nops; i++ {
 				f := c.Rng.Intn(nt)
-				switch c.Rng.Intn(16) {
+				switch c.Rng.Intn(19) {
+				case 16:
+					ops = append(ops, "cp")
+					other = m.Copy()
+				case 17:
+					ops = append(ops, "sw")
+					m, other = other, m
+				case 18:
+					ops = append(ops, "am")
+					m.AddMesh(other)
 				case 0, 1, 2, 3:
 					ops = append(ops, "add", strconv.Itoa(f))
 					m.Add(tris[f])
